@@ -4,7 +4,7 @@
    for ALL operand values of the type.  (GenLegacy.v is regenerated from /repo on every run.) *)
 From Coq Require Import ZArith Bool List String Lia.
 From Verif Require Import Base.Word256 C03.LIR C03.ArithSpec C03.WordArith C03.TypeLemmas C03.ArithModel
-  C03.TieBase C03.GenLegacy C03.LegacyExact C03.TieLegacy.
+  C03.TieBase C03.TieModels C03.GenLegacy C03.LegacyExact C03.TieLegacy.
 Import ListNotations.
 Open Scope Z_scope.
 
